@@ -252,6 +252,15 @@ func enumShapeRaw(j int) *gen.Cfg {
 			c.Decorators = []gen.Dec{d1, d0}
 		}
 	}
+	// every member has a parameter made of a function token, referred to plainly by its constructor-built
+	// services: evaluated once per container whatever the shape
+	c.Meta.Functions = []gen.KV{{K: "fn", V: fx + ".Fn"}}
+	c.Params = []gen.Param{{Name: "p", V: gen.Arg{Kind: "pattern", Chunks: []gen.Chunk{{Kind: "fn", S: "fn", Def: "p"}}}}}
+	for i := range c.Services {
+		if sv := &c.Services[i]; !sv.Todo && sv.Ctor != "" && (sv.Name == "a" || sv.Name == "b") {
+			sv.Args = append(sv.Args, gen.Arg{Kind: "pattern", Chunks: []gen.Chunk{{Kind: "ref", S: "p"}}})
+		}
+	}
 	return c
 }
 
